@@ -14,7 +14,7 @@ def make_plan(ths, tier, rnd):
     plan = modelcheck.Plan()
     thorough = tier == "thorough"
     fam = 0
-    for theory, (sig, stages) in ths.items():
+    for theory, (sig, stages) in modelcheck.select(ths, PROP, tier):
         api = histories.api_of(sig, modelcheck.module_path(theory))
         n = SIZE.get(theory, 2)
         for _ in range(60 if thorough else 12):
